@@ -272,6 +272,25 @@ C18V(r) ==
     <<"chart-and-every-event-render-with-str-and-repr", r.outcome = "chart" => r.rendered = "">>
   >>)
 
+(***************************** C16 *****************************************)
+\* r.notes = start times (us, BigNat) of the chosen track's notes; r.S / r.E the interval bounds in us as the
+\* property defines them (tick bound = un-hinted tempo-map time, omitted start = 0, omitted end = last note
+\* end); r.num / r.den the returned float as an exact ratio.
+C16V(r) ==
+  IF r.track # "with-notes" THEN
+    FirstFail(<< <<"absent-or-note-less-track-raises-ValueError", r.raised = "ValueError">> >>)
+  ELSE IF Leq(r.E, r.S) THEN
+    FirstFail(<< <<"non-positive-interval-raises-ValueError", r.raised = "ValueError">> >>)
+  ELSE
+    LET c == Cardinality({ k \in DOMAIN r.notes : Leq(r.S, r.notes[k]) /\ Leq(r.notes[k], r.E) })
+        D == Sub(r.E, r.S)
+        target == Mul(FromNat(c * 1000000), r.den)          \* exact rate = target / (D * den) per second
+    IN FirstFail(<<
+      <<"positive-interval-returns-a-rate", r.raised = "">>,
+      <<"rate-is-count-in-closed-interval-over-length",
+          r.raised = "" => Leq(Mul(AbsDiff(Mul(r.num, D), target), Pow2(50)), target)>>
+    >>)
+
 (***************************** C08 *****************************************)
 \* r.kind = "B":  r.nd digits of n, r.m / r.e the observed tempo as m * 2^e (m the 53-bit significand)
 \* "the nearest float": |m * 2^e - n/1000| <= half an ulp = 2^e / 2, i.e. |1000 m 2^e - n| <= 500 * 2^e
@@ -322,6 +341,7 @@ VerdictOf(p, r) ==
     [] p = "C04" -> C04V(r)
     [] p = "C05" -> C05V(r)
     [] p = "C08" -> C08V(r)
+    [] p = "C16" -> C16V(r)
     [] p = "C18" -> C18V(r)
     [] p = "C14" -> C14V(r)
     [] p = "C13" -> C13V(r)
